@@ -47,7 +47,9 @@ Qed.
 (* ---------- token check: a source only reacts to events carrying one of its own tokens (C01, C07) ---------- *)
 Definition src_has_tok (x : src) (t : tok) : bool :=
   match x with
-  | SComp _ own subs => opt_tok_is own t || existsb (fun g => opt_tok_is (g_tok g) t) subs
+  | SComp _ own subs tmr =>
+      opt_tok_is own t || existsb (fun g => opt_tok_is (g_tok g) t) subs ||
+      match tmr with Some tm => match tm_reg tm with Some (tk, _) => tok_eqb tk t | None => false end | None => false end
   | SPing g => opt_tok_is (g_tok g) t
   | SChan _ g => opt_tok_is (g_tok g) t
   | STimer tm => match tm_reg tm with Some (tk, _) => tok_eqb tk t | None => false end
@@ -65,8 +67,11 @@ Lemma obj_process_no_token scr s o ob ev :
   objs s o = Some ob -> src_has_tok (o_src ob) (unpack (ev_key ev)) = false ->
   log (fst (obj_process scr s o ev)) = log s /\ snd (obj_process scr s o ev) = Some Continue.
 Proof.
-  intros Ho Ht. unfold obj_process. rewrite Ho. destruct (o_src ob) as [lc own subs|g|tm|c g]; cbn in Ht.
-  - apply orb_false_iff in Ht as [H1 H2]. rewrite H1, (find_sub_none subs _ 1%nat H2). split; reflexivity.
+  intros Ho Ht. unfold obj_process. rewrite Ho. destruct (o_src ob) as [lc own subs tmr|g|tm|c g]; cbn in Ht.
+  - apply orb_false_iff in Ht as [Ht H3]. apply orb_false_iff in Ht as [H1 H2]. rewrite H1, (find_sub_none subs _ 1%nat H2).
+    destruct tmr as [tm|]; [|split; reflexivity]. unfold timer_sub_fire.
+    destruct (tm_reg tm) as [[tk c]|]; [|split; reflexivity]. destruct (tm_dl tm); [|split; reflexivity].
+    rewrite H3. split; reflexivity.
   - unfold ping_drain. rewrite Ht. split; reflexivity.
   - destruct (tm_reg tm) as [[tk c]|]; [|split; reflexivity]. destruct (tm_dl tm); [|split; reflexivity].
     rewrite Ht. split; reflexivity.
@@ -86,9 +91,12 @@ Qed.
 
 Lemma src_unregister_silent e x x' e' : src_unregister e x = (true, x', e') -> src_silent x'.
 Proof.
-  intros H t. destruct x as [lc own subs|g|tm|c g]; cbn in H.
-  - destruct (subs_unregister e subs) as [[ok subs'] e''] eqn:E. injection H as -> <- <-.
-    cbn. apply (subs_unregister_silent _ _ _ _ E).
+  intros H t. destruct x as [lc own subs tmr|g|tm|c g]; cbn in H.
+  - destruct (subs_unregister e subs) as [[ok subs'] e''] eqn:E. destruct ok; [|destruct tmr; discriminate].
+    destruct tmr as [tm|].
+    + unfold timer_unregister in H. destruct (tm_reg tm) as [[tk c]|]; injection H as <- <-; cbn;
+        rewrite (subs_unregister_silent _ _ _ _ E); reflexivity.
+    + injection H as <- <-. cbn. rewrite (subs_unregister_silent _ _ _ _ E). reflexivity.
   - unfold gen_unregister in H. destruct (ep_del _ _); [|discriminate]. injection H as <- <-. reflexivity.
   - unfold timer_unregister in H. destruct (tm_reg tm) as [[tk c]|]; injection H as <- <-; reflexivity.
   - unfold gen_unregister in H. destruct (ep_del _ _); [|discriminate]. injection H as <- <-. reflexivity.
@@ -241,6 +249,7 @@ Proof.
   destruct (src_unregister (en s) (o_src ob)) as [[ok x'] e1] eqn:Eu.
   assert (Hlc' : src_lc x' = true).
   { destruct (o_src ob); cbn in Eu, Hlc; try discriminate.
-    destruct (subs_unregister _ _) as [[a b] c]. injection Eu as _ <- _. exact Hlc. }
+    destruct (subs_unregister _ _) as [[a b] c]. destruct a; [destruct tmr as [tm|]; [destruct (timer_unregister c tm)|]|];
+      injection Eu as _ <- _; exact Hlc. }
   rewrite Hlc' in H. injection H as _ <-. cbn. apply lc_unregister_not_in.
 Qed.
